@@ -140,7 +140,7 @@ class Worker:
                 return Died("abort", {"signal": "SIGSEGV", "msg": "stack overflow", "site": "stack-overflow"})
             return Died("signal", {"signal": signal.Signals(sig).name, "msg": se[-300:], "site": signal.Signals(sig).name})
         if pan is not None:
-            return Died("panic", {"msg": pan.get("msg", ""), "site": pan.get("site", "?"), "loc": pan.get("loc"),
+            return Died("panic", {"msg": pan.get("msg", ""), "site": pan.get("site", "?"), "func": pan.get("func", ""), "loc": pan.get("loc"),
                                   "thread": pan.get("thread")})
         return Died("exit", {"rc": rc, "msg": se[-300:], "site": f"exit:{rc}"})
 
@@ -178,6 +178,9 @@ class Worker:
     def call(self, req, timeout=WATCHDOG):
         if self.dead:
             raise Died("exit", {"msg": "worker already gone", "site": "gone"})
+        if req.get("op") in ("msg", "raw"):
+            # the worker's own wait for the response (and then for the sentinel) stays inside this watchdog
+            req = dict(req, limit_ms=int(timeout * grace() * 1000 * 0.45))
         try:
             self.p.stdin.write((json.dumps(req) + "\n").encode())
             self.p.stdin.flush()
@@ -255,6 +258,7 @@ class Ctx:
         self.samples = []
         self.stats = {}
         self.subst = {}
+        self.deadline = float("inf")
 
     def bump(self, k, n=1):
         with self.lock:
@@ -267,7 +271,19 @@ class Ctx:
 
     def mismatch(self, cls, action, **kw):
         with self.lock:
-            self.rep.mismatch(cls, action, **kw)
+            rec = self.rep.mismatch(cls, action, **kw)
+            try:
+                with open(SCRATCH / "progress.ndjson", "a") as f:      # scratch, for people
+                    f.write(json.dumps(rec, default=str) + "\n")
+            except OSError:
+                pass
+
+    def late(self, leg):
+        """the tier's time budget is used up: legs stop taking new work (counted, reported in the evidence)"""
+        if time.time() > self.deadline:
+            self.bump("cut_short_" + leg)
+            return True
+        return False
 
     def sample(self, s):
         with self.lock:
@@ -281,7 +297,8 @@ class Ctx:
 
 
 def death_fields(d):
-    return {"site": d.info.get("site", "?"), "panic_msg": str(d.info.get("msg", ""))[:300], "detail": d.info}
+    return {"site": d.info.get("site", "?"), "func": d.info.get("func") or ((d.info.get("panic") or {}).get("func")) or "",
+            "panic_msg": str(d.info.get("msg", ""))[:300], "detail": d.info}
 
 
 # ------------------------------------------------------------------------------------------------
@@ -333,8 +350,8 @@ def judge_line(ctx, leg, state, rec, text, res, n_before, script):
     base = dict(leg=leg, state=state, text=text, script=script)
     r = res.get("r")
     if r == "panic":
-        ctx.mismatch("panic", action, site=res.get("site"), panic_msg=res.get("msg"), stage=res.get("stage"),
-                     expected=rec["exp"][state], actual="panic", **base)
+        ctx.mismatch("panic", action, site=res.get("site"), func=res.get("func") or "", panic_msg=res.get("msg"),
+                     stage=res.get("stage"), expected=rec["exp"][state], actual="panic", **base)
     elif r not in rec["exp"][state]:
         ctx.mismatch("wrong_outcome_class", action, site="", expected=rec["exp"][state],
                      actual={"r": r, "text": res.get("text")}, **base)
@@ -388,6 +405,9 @@ def run_console_lines(ctx, state, recs, tag):
     skipped = 0
     for rec in recs:
         text = ctx.sub(rec["text"])
+        if ctx.late("lines_" + state):
+            skipped += 1
+            continue
         if w is None:
             if fresh_left <= 0:
                 skipped += 1
@@ -455,7 +475,7 @@ def run_console_walk(ctx, groups, nseq, seed, tag, wid):
     w, cur, done, fresh = None, None, 0, 0
     trail = []          # commands since the worker started: the replay script
     t0 = time.time()
-    while done < nseq:
+    while done < nseq and not ctx.late("seqs"):
         if w is None:
             if fresh >= 6:
                 break
@@ -491,7 +511,7 @@ def run_console_walk(ctx, groups, nseq, seed, tag, wid):
             r = res.get("r")
             obs.append((r, res.get("status")))
             if r == "panic":
-                ctx.mismatch("panic", "console:" + name, leg="seqs", text=line, step=i, state=cur[0], site=res.get("site"),
+                ctx.mismatch("panic", "console:" + name, leg="seqs", text=line, step=i, state=cur[0], site=res.get("site"), func=res.get("func") or "",
                              panic_msg=res.get("msg"), expected="ok|error", actual="panic", script=script)
             for ev in res.get("events") or []:
                 ctx.mismatch("oob_read", "console:" + name, leg="seqs", text=line, site=ev.split(" ")[0], actual=ev, script=script)
@@ -578,6 +598,9 @@ def run_poison_vars(ctx, variables, plan, patterns, tag, only=None, wid=0):
     t0 = time.time()
     rng = random.Random(vlib.seed() * 77 + wid)
     while todo is None or pi < len(todo):
+        if todo is not None and ctx.late("poison"):
+            ctx.bump("poison_pairs_skipped", len(todo) - pi)
+            break
         if w is None:
             fresh += 1
             if fresh > 60:
@@ -640,7 +663,7 @@ def run_poison_vars(ctx, variables, plan, patterns, tag, only=None, wid=0):
                 break
             if res.get("r") == "panic":
                 ctx.mismatch("panic", "poison:" + pname.split("@")[0], leg="poison", var=var, poison=pname, text=line,
-                             site=res.get("site"), panic_msg=res.get("msg"), stage=res.get("stage"),
+                             site=res.get("site"), func=res.get("func") or "", panic_msg=res.get("msg"), stage=res.get("stage"),
                              expected=["ok", "error"], actual="panic", script=script)
                 ctx.note("poison", (var, pname, text), ("panic", res.get("site")))
                 continue
@@ -662,6 +685,8 @@ def run_poison_vars(ctx, variables, plan, patterns, tag, only=None, wid=0):
 def run_poison_frame(ctx, patterns, tag):
     """every local poisoned at once, then the commands that walk the whole frame"""
     for pname in patterns:
+        if ctx.late("poison_frame"):
+            continue
         w = console_prelude(ctx, "stopped")
         v = w.call({"op": "vars"})["vars"]
         for var, (addr, size) in sorted(v.items()):
@@ -679,7 +704,7 @@ def run_poison_frame(ctx, patterns, tag):
                 w = None
                 break
             if res.get("r") == "panic":
-                ctx.mismatch("panic", "poison:" + pname, leg="poison-frame", poison=pname, text=line, site=res.get("site"),
+                ctx.mismatch("panic", "poison:" + pname, leg="poison-frame", poison=pname, text=line, site=res.get("site"), func=res.get("func") or "",
                              panic_msg=res.get("msg"), expected=["ok", "error"], actual="panic", script=script)
                 continue
             judge_line(ctx, "poison", "stopped", rec, line, res, None, script)
@@ -740,7 +765,10 @@ def dap_request(m, caps):
     return req
 
 
-def dap_prelude(ctx, state):
+def dap_prelude(ctx, state, pargs=("plain",), strict=True):
+    """a fresh DAP worker, for `stopped` driven to the probe line.  The DAP legs launch the puppet in its
+    `plain` mode (no self-referential local): with the self-referential one a VALID `scopes` request overflows
+    the adapter's stack, which is recorded once by run_dap_selfref and would otherwise hide the whole leg."""
     w = Worker(ctx.exe, "dap", ctx.puppet)
     caps = {"$puppet": ctx.puppet, "$src": str(PUPPET_SRC), "$probe": ctx.probe, "$tid": 0, "$frame": 0, "$vref": 0,
             "$iref": "0x" + ctx.subst["$pc$"], "$var": "0x" + ctx.subst["$var$"], "$var$": ctx.subst["$var$"], "$utf8$": UTF8}
@@ -751,6 +779,9 @@ def dap_prelude(ctx, state):
         try:
             r = w.call({"op": "msg", "msg": req, "want_body": True}, timeout=timeout)
         except Died as d:
+            if not strict:
+                d.what = what
+                raise
             raise vlib.ToolError(f"DAP prelude ({what}) killed the worker: {d.cls} {d.info}")
         if r.get("r") != "ok":
             w.kill()
@@ -758,7 +789,7 @@ def dap_prelude(ctx, state):
         return r
 
     must({"type": "request", "command": "initialize", "arguments": {"adapterID": "c08"}}, "initialize")
-    must({"type": "request", "command": "launch", "arguments": {"program": ctx.puppet, "args": []}}, "launch")
+    must({"type": "request", "command": "launch", "arguments": {"program": ctx.puppet, "args": list(pargs)}}, "launch")
     must({"type": "request", "command": "setBreakpoints",
           "arguments": {"source": {"path": str(PUPPET_SRC)}, "breakpoints": [{"line": ctx.probe}]}}, "setBreakpoints")
     r = must({"type": "request", "command": "configurationDone"}, "configurationDone")
@@ -767,12 +798,16 @@ def dap_prelude(ctx, state):
     if not ths:
         w.kill()
         raise vlib.ToolError(f"DAP prelude: no threads after configurationDone: {t} / {r}")
-    caps["$tid"] = ths[0]["id"]
-    st = must({"type": "request", "command": "stackTrace", "arguments": {"threadId": caps["$tid"]}}, "stackTrace")
-    frames = (st.get("body") or {}).get("stackFrames") or []
-    if not frames or frames[0].get("line") != ctx.probe:
+    frames = []
+    for th in ths:          # the thread that stands at the probe line (the list is in no particular order)
+        st = must({"type": "request", "command": "stackTrace", "arguments": {"threadId": th["id"]}}, "stackTrace")
+        fr = (st.get("body") or {}).get("stackFrames") or []
+        if fr and fr[0].get("line") == ctx.probe:
+            caps["$tid"], frames = th["id"], fr
+            break
+    if not frames:
         w.kill()
-        raise vlib.ToolError(f"DAP prelude: not stopped at the probe line: {str(frames)[:300]}")
+        raise vlib.ToolError(f"DAP prelude: no thread stopped at the probe line: {str(ths)[:300]}")
     caps["$frame"] = frames[0]["id"]
     if isinstance(frames[0].get("instructionPointerReference"), str):
         caps["$iref"] = frames[0]["instructionPointerReference"]
@@ -795,15 +830,16 @@ def dap_recapture(ctx, w, caps):
             t = ask("threads")
             ths = (t.get("body") or {}).get("threads") or []
             if t.get("r") == "ok" and ths:
-                st = ask("stackTrace", {"threadId": ths[0]["id"]})
-                frames = (st.get("body") or {}).get("stackFrames") or []
-                if st.get("r") == "ok" and frames and frames[0].get("line") == ctx.probe:
-                    caps["$tid"], caps["$frame"] = ths[0]["id"], frames[0]["id"]
-                    sc = ask("scopes", {"frameId": caps["$frame"]})
-                    scopes = (sc.get("body") or {}).get("scopes") or []
-                    if scopes:
-                        caps["$vref"] = scopes[0]["variablesReference"]
-                    return True
+                for th in ths:
+                    st = ask("stackTrace", {"threadId": th["id"]})
+                    frames = (st.get("body") or {}).get("stackFrames") or []
+                    if st.get("r") == "ok" and frames and frames[0].get("line") == ctx.probe:
+                        caps["$tid"], caps["$frame"] = th["id"], frames[0]["id"]
+                        sc = ask("scopes", {"frameId": caps["$frame"]})
+                        scopes = (sc.get("body") or {}).get("scopes") or []
+                        if scopes:
+                            caps["$vref"] = scopes[0]["variablesReference"]
+                        return True
             if attempt == 0:
                 r = ask("restart", None, timeout=40)
                 if r.get("r") != "ok" or r.get("ended"):
@@ -811,6 +847,20 @@ def dap_recapture(ctx, w, caps):
     except Died:
         return False
     return False
+
+
+def run_dap_selfref(ctx, tag):
+    """the well-formed prelude (initialize .. scopes) on the puppet WITH its self-referential local"""
+    script = {"leg": "dap-selfref", "cfg": tag}
+    try:
+        w, _ = dap_prelude(ctx, "stopped", pargs=(), strict=False)
+        w.kill()
+        ctx.note("dap", ("selfref",), ("ok",))
+    except Died as d:
+        what = getattr(d, "what", "?")
+        ctx.mismatch(d.cls, "dap:" + what, leg="dap-selfref", state="stopped", shape="request:valid", field="",
+                     expected=["ok"], actual=d.cls, script=script, **death_fields(d))
+        ctx.note("dap", ("selfref",), (d.cls, d.info.get("site")))
 
 
 def judge_dap(ctx, leg, state, m, res, script, action):
@@ -853,7 +903,11 @@ def run_dap_msgs(ctx, state, msgs, tag):
                                        (0 if m["kind"] == "envelope" else 3)))
     w, caps = None, None
     t0 = time.time()
+    nskip = 0
     for m in msgs:
+        if ctx.late("dap_" + state):
+            nskip += 1
+            continue
         if w is None:
             w, caps = dap_prelude(ctx, state)
         kind = m["kind"]
@@ -894,12 +948,13 @@ def run_dap_msgs(ctx, state, msgs, tag):
             w = None
     if w is not None:
         w.kill()
-    vlib.log(f"[c08] DAP messages in state {state}: {len(msgs)} in {time.time() - t0:.1f}s")
+    ctx.bump("dap_msgs_skipped_" + state, nskip)
+    vlib.log(f"[c08] DAP messages in state {state}: {len(msgs)} ({nskip} skipped) in {time.time() - t0:.1f}s")
 
 
 SEQ_MSG = {
     "initialize": lambda c: {"command": "initialize", "arguments": {"adapterID": "c08"}},
-    "launch": lambda c: {"command": "launch", "arguments": {"program": c["$puppet"], "args": []}},
+    "launch": lambda c: {"command": "launch", "arguments": {"program": c["$puppet"], "args": ["plain"]}},
     "setBreakpoints": lambda c: {"command": "setBreakpoints", "arguments": {"source": {"path": c["$src"]},
                                                                               "breakpoints": [{"line": c["$probe"]}]}},
     "configurationDone": lambda c: {"command": "configurationDone"},
@@ -917,6 +972,8 @@ SEQ_MSG = {
 
 
 def run_dap_seq(ctx, seq, tag):
+    if ctx.late("dapseqs"):
+        return
     w, caps = dap_prelude(ctx, "fresh")
     obs = []
     script = {"leg": "dap-seqs", "cfg": tag, "seq": list(seq)}
@@ -1016,6 +1073,12 @@ def run(rep, tier, replay):
              f"{len(dseqs)} DAP sequences; TLC done at {time.time() - t0:.0f}s")
 
     bootstrap(ctx)
+    try:
+        (SCRATCH / "progress.ndjson").unlink()
+    except OSError:
+        pass
+    budget = float(os.environ.get("C08_BUDGET_S") or (105 if quick else 1300))
+    ctx.deadline = time.time() + budget
     seed = vlib.seed()
     legs = set((os.environ.get("C08_LEGS") or "lines,seqs,poison,dap,dapseqs").split(","))
     # ---- what is executed in this tier ----
@@ -1055,6 +1118,7 @@ def run(rep, tier, replay):
             for i in range(nwalk):
                 futs.append(pool.submit(run_console_walk, ctx, groups, nseq, seed, cfgs["seqs"], i))
         if "dap" in legs:
+            futs.append(pool.submit(run_dap_selfref, ctx, cfgs["dmsgs"]))
             for st in ("stopped", "fresh"):
                 futs.append(pool.submit(run_dap_msgs, ctx, st, dmsg_sets[st], cfgs["dmsgs"]))
         if "dapseqs" in legs:
@@ -1113,7 +1177,7 @@ def run(rep, tier, replay):
         "executed": {"console_lines": {k: len(v) for k, v in line_sets.items()}, "console_sequences": len(seq_keys),
                      "dap_messages": {k: len(v) for k, v in dmsg_sets.items()}, "dap_sequences": len(dseq_run),
                      "poison_variables": len(poison_vars), "poison_query_lines": ctx.stats.get("poison_lines", 0)},
-        "worker_processes": Worker.count,
+        "worker_processes": Worker.count, "time_budget_for_legs_s": budget, "run_stats": ctx.stats,
         "watchdog_s": WATCHDOG, "watchdog_load_factor_at_end": round(grace(), 2),
         "records_by_class_and_site": by_class,
         "legs": sorted(legs),
@@ -1151,7 +1215,7 @@ def replay_trail(ctx, sc, g1, tag):
             r = res.get("r")
             ctx.note("seqs", (cur, name, i), (r, res.get("status")))
             if r == "panic":
-                ctx.mismatch("panic", "console:" + name, leg="seqs", text=t, step=i, state=cur[0], site=res.get("site"),
+                ctx.mismatch("panic", "console:" + name, leg="seqs", text=t, step=i, state=cur[0], site=res.get("site"), func=res.get("func") or "",
                              panic_msg=res.get("msg"), expected="ok|error", actual="panic", script=script)
                 r = "error"
             if (res.get("sentinel") or {}).get("r") != "ok":
@@ -1208,6 +1272,8 @@ def run_replay(ctx, replay):
         run_dap_msgs(ctx, sc["state"], hit[:1], cfg)
     elif leg == "dap-seqs":
         run_dap_seq(ctx, tuple(sc["seq"]), cfg)
+    elif leg == "dap-selfref":
+        run_dap_selfref(ctx, cfg)
     else:
         raise vlib.ToolError(f"replay: unknown leg {leg}")
     return ctx.rep.finish("exploration", {"evaluations": ctx.evals, "distinct_nontrivial": len(ctx.nontrivial), "rule": RULE,
